@@ -51,6 +51,9 @@ def main(p):
             elif pos == 'flattened-dotted':
                 setattr(exp.holder, w, 'v1')
                 req, kwargs = None, {pw: 'v1'}
+            elif pos == 'flattened-dotted-first':
+                getattr(exp, w).name = 'v1'
+                req, kwargs = None, {'name': 'v1'}
             elif pos == 'path-var':
                 setattr(exp, w, 'items/x1')
                 exp.extra = 'e'
